@@ -175,6 +175,71 @@ def gencond(files):
     print(n, 'condition mutants')
 
 
+def split_args(a):
+    out, depth, cur = [], 0, ''
+    for ch in a:
+        if ch in '([{<' :
+            depth += 1
+        elif ch in ')]}>':
+            depth -= 1
+        if ch == ',' and depth == 0:
+            out.append(cur)
+            cur = ''
+        else:
+            cur += ch
+    if cur.strip():
+        out.append(cur)
+    return out
+
+
+def genargs(files):
+    """fourth operator family: two adjacent arguments of a call exchanged (the compiler keeps only same-typed pairs)"""
+    os.makedirs(OUT, exist_ok=True)
+    have = {m['id'] for m in load('mutants.jsonl')}
+    n = 0
+    skip = ('debug_assert', 'tracing::', 'metrics', 'histogram!', 'counter!', 'trace!', 'debug!', 'panic!', 'assert', 'format!', 'expect(')
+    with open(os.path.join(OUT, 'mutants.jsonl'), 'a') as out:
+        for rel in files:
+            p = os.path.join(core.REPO, rel)
+            if not os.path.exists(p):
+                continue
+            src, end = production_lines(p)
+            for i in range(end):
+                l = src[i]
+                code = l.split('//')[0]
+                if any(k in code for k in skip) or code.strip().startswith(('fn ', 'pub fn', 'pub(crate) fn', 'pub(super) fn', '#[', 'use ')):
+                    continue
+                k = 0
+                for m in re.finditer(r'[A-Za-z_][A-Za-z0-9_]*\(', code):
+                    st = m.end()
+                    depth, j = 1, st
+                    while j < len(code) and depth:
+                        depth += code[j] in '([{'
+                        depth -= code[j] in ')]}'
+                        j += 1
+                    if depth:
+                        continue
+                    inner = code[st:j - 1]
+                    args = split_args(inner)
+                    if len(args) < 2 or '|' in inner:
+                        continue
+                    for a in range(len(args) - 1):
+                        if args[a].strip() == args[a + 1].strip():
+                            continue
+                        sw = args[:a] + [args[a + 1], args[a]] + args[a + 2:]
+                        # keep the original spacing: leading space belongs to the position, not the argument
+                        sw = [(' ' if x and idx > 0 else '') + x.strip() for idx, x in enumerate(sw)]
+                        new = code[:st] + ','.join(sw) + code[j - 1:]
+                        k += 1
+                        mid = f'{rel}:{i+1}:args{k}'
+                        if mid in have or new == code:
+                            continue
+                        have.add(mid)
+                        out.write(json.dumps(dict(id=mid, file=rel, line=i + 1, op='swap adjacent call arguments', old=l, new=new)) + '\n')
+                        n += 1
+    print(n, 'argument-swap mutants')
+
+
 ALL_RULES = None
 
 
@@ -388,6 +453,8 @@ if __name__ == '__main__':
     limit = int(a[a.index('--limit') + 1]) if '--limit' in a else 0
     if cmd == 'gen':
         gen([x for x in a[1:] if x.startswith('src/')] or FILES)
+    elif cmd == 'genargs':
+        genargs([x for x in a[1:] if x.startswith('src/')] or FILES)
     elif cmd == 'gencond':
         gencond([x for x in a[1:] if x.startswith('src/')] or FILES)
     elif cmd == 'genswap':
